@@ -25,7 +25,6 @@ EXPECTED = {
     # (file, function): reason - every entry is an argument shape the contract's setup excludes, named in the evidence assumptions
     ('boltons/cacheutils.py', 'LRI.__eq__'): '`self is other`: the argument of the lock-discipline contract is an opaque value, assumed not to be self',
     ('boltons/dictutils.py', 'ManyToMany.update'): 'the branch for an argument that is itself a ManyToMany is outside the contract variant',
-    ('boltons/dictutils.py', 'OrderedMultiDict.iteritems'): 'only multi=True is under contract',
     ('boltons/dictutils.py', 'OrderedMultiDict.update'): '`E is self`: the argument is assumed not to be the object itself',
     ('boltons/dictutils.py', 'OrderedMultiDict.update_extend'): '`E is self`: the argument is assumed not to be the object itself',
     ('boltons/ioutils.py', 'MultiFileReader.read'): 'the unsized read() is outside the contract (amt >= 1 required)',
